@@ -101,3 +101,11 @@ UNITS.append(dict(name='mpq_swap', props=P, source='mpq/swap.c', contracts=['mpz
 for u in UNITS:
     if u['name'] in ('mpq_inv_ds', 'mpq_inv', 'mpq_set', 'mpq_neg_ds', 'mpq_set_num_an', 'mpq_swap'):
         u['quick_props'] = ['C04', 'C05']
+# the in-place mutant only shows in the dest == src partition
+for u in UNITS:
+    if u['name'] == 'mpq_inv':
+        _m = [m for m in u['selftest'] if 'alloc = alloc' in m[1]]
+        u['selftest'] = [m for m in u['selftest'] if 'alloc = alloc' not in m[1]]
+for u in UNITS:
+    if u['name'] == 'mpq_inv_ds':
+        u['selftest'] = _m
